@@ -228,7 +228,8 @@ class Recorder(object):
         if b == 'file-json':
             return os.path.join(w, 'f%d.json' % x)
         if b == 'file-py':
-            return os.path.join(w, 'fsrc%d.py' % x)
+            # all locations but the first are named without the suffix, which the library then appends (open and copy alike)
+            return os.path.join(w, 'fsrc%d.py' % x if x == 1 else 'fsrc%d' % x)
         if b.startswith('dir'):
             return os.path.join(w, 'd%d' % x)
         if b == 'sql-file':
